@@ -1201,7 +1201,13 @@ func (r *Run) rangeInit(i *ssa.Range) Value {
 	it := &iterState{}
 	if !m.IsNil() {
 		it.m = m.Obj
-		it.order = r.mapOrder(m.Obj)
+		if r.eng.isHarnessFn(r.frame.fn) {
+			// harness code must not depend on iteration order; insertion
+			// order is one legal order and avoids forking n! ways
+			it.order = append([]*MapEntry(nil), r.mapData(m).Entries...)
+		} else {
+			it.order = r.mapOrder(m.Obj)
+		}
 	}
 	return it
 }
